@@ -105,7 +105,34 @@ def system_world(ip, origin='PRISM.sys', table_elems=None):
         t.origin = origin + '.' + nm
         attrs[nm] = t
     ip.nonneg.add('n_types')
-    return Obj(prog.cls('pyPRISM.core.System::System'), attrs, origin)
+    syscls = prog.cls('pyPRISM.core.System::System')
+    o = Obj(syscls, attrs, origin)
+    # Attributes the class derives itself are not guessed: System.__init__ is interpreted with the construction-time
+    # temperature kT0 and every attribute it creates beyond the modelled ones is taken over with its own term.
+    # Every documented attribute is plainly assignable, and temperature sweeps assign `sys.kT` after construction:
+    # the re-assignment is performed through the class's own attribute protocol (a property setter, if the class
+    # grows one, runs).  State that is derived from kT once and then read by PRISM.__init__ is therefore visible as a
+    # term in kT0 instead of kT.
+    from .interp import Raised as _Raised
+    ev0 = len(ip.events)
+    try:
+        kT0 = Num(ip.declare('kT0'))
+        o0 = ip.construct(syscls, [types], {'kT': kT0})
+        for k_, v_ in o0.attrs.items():
+            if k_ not in attrs:
+                attrs[k_] = v_
+        if 'kT' in o0.attrs:
+            ip.set_attr(o, 'kT', Num(N.sym('kT')), None)
+        else:       # kT kept behind a property: install the construction-time state, then assign like a user
+            for k_, v_ in o0.attrs.items():
+                if k_ not in ('types', 'rank', 'domain', 'density', 'diameter', 'potential', 'closure', 'omega'):
+                    attrs[k_] = v_
+            attrs.pop('kT', None)
+            ip.set_attr(o, 'kT', Num(N.sym('kT')), None)
+    except (Unsupported, _Raised):
+        pass
+    del ip.events[ev0:]
+    return o
 
 
 def prism_world(ip, spaces=None, table_elems=None):
